@@ -1,7 +1,8 @@
 //! Case generator + executor of the real crate.
 //! usage: harness <suite> --seed S --n N --out DIR [--threads T]
 use scnr::ScannerBuilder;
-use scnr_verif_harness::cfggen::{self, ModeSpec, ProgCfg};
+use scnr_verif_harness::astser::{self, RefCache, RefTables};
+use scnr_verif_harness::cfggen::{self, ModeSpec, PatSpec, ProgCfg};
 use scnr_verif_harness::proto::{self, TableCache};
 use scnr_verif_harness::real::{self, History, Profile};
 use scnr_verif_harness::rng::Rng;
@@ -262,11 +263,224 @@ fn case_iter(seed: u64, idx: usize, suite: &str, cache: &TableCache, out: &mut S
     }
 }
 
+/// Loads the repository corpora (tests/data/*.json mode lists, benches/veryl_modes.json).
+fn load_corpora() -> Vec<(String, Vec<ModeSpec>)> {
+    let mut files: Vec<std::path::PathBuf> = Vec::new();
+    if let Ok(rd) = std::fs::read_dir("/repo/scnr/tests/data") {
+        for e in rd.flatten() {
+            let p = e.path();
+            let n = p.file_name().unwrap().to_string_lossy().to_string();
+            if n.ends_with(".json") && !n.ends_with("_tokens.json") {
+                files.push(p);
+            }
+        }
+    }
+    files.push("/repo/scnr/benches/veryl_modes.json".into());
+    files.sort();
+    let mut out = Vec::new();
+    for f in files {
+        let Ok(text) = std::fs::read_to_string(&f) else { continue };
+        let Ok(v) = serde_json::from_str::<serde_json::Value>(&text) else { continue };
+        let Some(arr) = v.as_array() else { continue };
+        let mut modes = Vec::new();
+        for m in arr {
+            let name = m["name"].as_str().unwrap_or("M").to_string();
+            let mut patterns = Vec::new();
+            for p in m["patterns"].as_array().cloned().unwrap_or_default() {
+                let lookahead = p.get("lookahead").and_then(|l| {
+                    Some((l["is_positive"].as_bool()?, l["pattern"].as_str()?.to_string()))
+                });
+                patterns.push(PatSpec {
+                    pattern: p["pattern"].as_str().unwrap_or("").to_string(),
+                    tid: p["token_type"].as_u64().unwrap_or(0) as usize,
+                    lookahead,
+                });
+            }
+            let mut transitions = Vec::new();
+            for t in m["transitions"].as_array().cloned().unwrap_or_default() {
+                transitions.push((t[0].as_u64().unwrap_or(0) as usize, t[1].as_u64().unwrap_or(0) as usize));
+            }
+            modes.push(ModeSpec { name, patterns, transitions });
+        }
+        out.push((f.file_name().unwrap().to_string_lossy().to_string(), modes));
+    }
+    out
+}
+
+/// Writes reference tables and the serialised pattern ASTs of a configuration.
+/// Returns false if a pattern is outside the reference subset.
+fn write_patterns(out: &mut String, spec: &[ModeSpec], rcache: &RefCache) -> bool {
+    let mut refs = RefTables::default();
+    let mut lines = String::new();
+    for (m, mode) in spec.iter().enumerate() {
+        for p in &mode.patterns {
+            match astser::ser_pattern(&p.pattern, &mut refs, rcache) {
+                Some(a) => {
+                    let _ = writeln!(lines, "pat {} {}{}", m, p.tid, a);
+                }
+                None => return false,
+            }
+            if let Some((_, la)) = &p.lookahead {
+                match astser::ser_pattern(la, &mut refs, rcache) {
+                    Some(a) => {
+                        let _ = writeln!(lines, "lapat {} {}{}", m, p.tid, a);
+                    }
+                    None => return false,
+                }
+            }
+        }
+    }
+    refs.write(out);
+    out.push_str(&lines);
+    true
+}
+
+/// C02: the compiled automata (mode and lookaheads) against the pattern languages.
+fn equiv_case(idx: usize, spec: &[ModeSpec], cache: &TableCache, rcache: &RefCache, out: &mut String, st: &mut Stats) {
+    let modes = cfggen::to_modes(spec);
+    st.cases += 1;
+    let built = catch_unwind(AssertUnwindSafe(|| {
+        ScannerBuilder::new().add_scanner_modes(&modes).build_uncached()
+    }));
+    let scanner = match built {
+        Err(_) => {
+            st.build_panic += 1;
+            let _ = writeln!(out, "case {}", idx);
+            let _ = writeln!(out, "expect buildpanic");
+            let _ = writeln!(out, "# {}", describe(spec).replace('\n', "\\n"));
+            return;
+        }
+        Ok(Err(_)) => {
+            st.build_err += 1;
+            return;
+        }
+        Ok(Ok(s)) => s,
+    };
+    let dump = scanner.verif_dump();
+    let tables = cache.tables(&scanner, &dump);
+    let mut body = String::new();
+    let _ = writeln!(body, "case {}", idx);
+    let _ = writeln!(body, "expect case {}", idx);
+    let _ = writeln!(body, "# {}", describe(spec).replace('\n', "\\n"));
+    proto::write_scanner(&mut body, &dump, &tables);
+    if !write_patterns(&mut body, spec, rcache) {
+        st.count("reference_unavailable", 1);
+        return;
+    }
+    body.push_str("wf\nexpect wf 1\n");
+    let _ = writeln!(body, "classids {}", dump.classes.len());
+    body.push_str("expect classids 1\n");
+    for (m, mode) in dump.modes.iter().enumerate() {
+        let _ = writeln!(body, "equiv {}", m);
+        body.push_str("expect equiv ok\n");
+        st.count("automata_checked", 1);
+        st.count("dfa_states", mode.dfa.states.len());
+        for (tid, _, la) in &mode.dfa.lookaheads {
+            let _ = writeln!(body, "equivla {} {}", m, tid);
+            body.push_str("expect equiv ok\n");
+            st.count("automata_checked", 1);
+            st.count("dfa_states", la.states.len());
+        }
+    }
+    out.push_str(&body);
+    if st.samples.len() < 3 {
+        st.samples.push(describe(spec));
+    }
+}
+
+fn case_c02(seed: u64, idx: usize, cache: &TableCache, rcache: &RefCache, out: &mut String, st: &mut Stats) {
+    let mut r = Rng::derive(seed, idx as u64);
+    let pc = ProgCfg { max_modes: 2, max_patterns: 5, lookahead: 25, nullable: true, transitions: false, big_tids: true };
+    let spec = cfggen::gen_program(&mut r, &pc);
+    equiv_case(idx, &spec, cache, rcache, out, st);
+}
+
+fn write_dfa_lines(out: &mut String, d: &scnr::verif::DfaDump) {
+    out.push_str("prio");
+    for t in &d.terminal_ids {
+        let _ = write!(out, " {}", t);
+    }
+    out.push('\n');
+    for (s, trs) in d.states.iter().enumerate() {
+        let (e, t) = d.end_states[s];
+        let _ = write!(out, "st {} {}", e as u8, t);
+        for (cc, to) in trs {
+            let _ = write!(out, " {} {}", cc, to);
+        }
+        out.push('\n');
+    }
+}
+
+/// C03: every (input, output) pair of Minimizer::minimize recorded while building.
+fn c03_case(idx: usize, spec: &[ModeSpec], cache: &TableCache, out: &mut String, st: &mut Stats) {
+    let modes = cfggen::to_modes(spec);
+    st.cases += 1;
+    scnr::verif::set_minimizer_log(true);
+    let _ = scnr::verif::take_minimizer_log();
+    let built = catch_unwind(AssertUnwindSafe(|| {
+        ScannerBuilder::new().add_scanner_modes(&modes).build_uncached()
+    }));
+    let log = scnr::verif::take_minimizer_log();
+    scnr::verif::set_minimizer_log(false);
+    let scanner = match built {
+        Err(_) => {
+            st.build_panic += 1;
+            let _ = writeln!(out, "case {}", idx);
+            let _ = writeln!(out, "expect buildpanic");
+            let _ = writeln!(out, "# {}", describe(spec).replace('\n', "\\n"));
+            return;
+        }
+        Ok(Err(_)) => {
+            st.build_err += 1;
+            return;
+        }
+        Ok(Ok(s)) => s,
+    };
+    let dump = scanner.verif_dump();
+    let tables = cache.tables(&scanner, &dump);
+    let _ = writeln!(out, "case {}", idx);
+    let _ = writeln!(out, "expect case {}", idx);
+    let _ = writeln!(out, "# {}", describe(spec).replace('\n', "\\n"));
+    out.push_str("scanner\n");
+    for (id, t) in tables.iter().enumerate() {
+        let _ = write!(out, "class {}", id);
+        for (lo, hi) in t.iter() {
+            let _ = write!(out, " {} {}", lo, hi);
+        }
+        out.push('\n');
+    }
+    for (a, b) in &log {
+        out.push_str("dfa x 0\n");
+        write_dfa_lines(out, a);
+        out.push_str("dfa x 1\n");
+        write_dfa_lines(out, b);
+        out.push_str("equivdfa\n");
+        out.push_str("expect equivdfa ok\n");
+        st.count("minimizer_pairs", 1);
+        st.count("states_before", a.states.len());
+        st.count("states_after", b.states.len());
+        if b.states.len() < a.states.len() {
+            st.count("pairs_with_merges", 1);
+        }
+    }
+    if st.samples.len() < 3 {
+        st.samples.push(describe(spec));
+    }
+}
+
+fn case_c03(seed: u64, idx: usize, cache: &TableCache, out: &mut String, st: &mut Stats) {
+    let mut r = Rng::derive(seed, idx as u64);
+    let pc = ProgCfg { max_modes: 2, max_patterns: 5, lookahead: 25, nullable: true, transitions: false, big_tids: false };
+    let spec = cfggen::gen_program(&mut r, &pc);
+    c03_case(idx, &spec, cache, out, st);
+}
+
 fn main() {
     // silence panic messages of caught panics
     std::panic::set_hook(Box::new(|_| {}));
     let args = parse_args();
     let cache = Arc::new(TableCache::default());
+    let rcache = Arc::new(RefCache::default());
     let threads = args.threads.max(1);
     let n = args.n;
     let mut chunks: Vec<(String, Stats)> = Vec::new();
@@ -274,6 +488,7 @@ fn main() {
         let mut handles = Vec::new();
         for t in 0..threads {
             let cache = cache.clone();
+            let rcache = rcache.clone();
             let suite = args.suite.clone();
             let seed = args.seed;
             handles.push(s.spawn(move || {
@@ -283,6 +498,8 @@ fn main() {
                 while idx < n {
                     match suite.as_str() {
                         "C01" | "C04" | "C05" | "find" => case_find(seed, idx, &suite, &cache, &mut out, &mut st),
+                        "C02" => case_c02(seed, idx, &cache, &rcache, &mut out, &mut st),
+                        "C03" => case_c03(seed, idx, &cache, &mut out, &mut st),
                         _ => case_iter(seed, idx, &suite, &cache, &mut out, &mut st),
                     }
                     idx += threads;
@@ -296,6 +513,23 @@ fn main() {
     });
     let mut all = String::new();
     let mut stats = Stats::default();
+    if args.suite == "C02" || args.suite == "C03" {
+        // the repository corpora always come first
+        let mut o = String::new();
+        let mut s = Stats::default();
+        for (i, (name, spec)) in load_corpora().into_iter().enumerate() {
+            let _ = writeln!(o, "# corpus {}", name);
+            if args.suite == "C02" {
+                equiv_case(1_000_000 + i, &spec, &cache, &rcache, &mut o, &mut s);
+            } else {
+                c03_case(1_000_000 + i, &spec, &cache, &mut o, &mut s);
+            }
+            s.count("corpus_configurations", 1);
+        }
+        s.samples.clear();
+        all.push_str(&o);
+        stats.merge(s);
+    }
     for (o, s) in chunks {
         all.push_str(&o);
         stats.merge(s);
